@@ -291,6 +291,9 @@ class Collection(AbstractPriorModel):
             else:
                 collection[key] = value
 
+        # items are named by position: the new collection holds the same items
+        collection.item_number = self.item_number
+
         return collection
 
     @property
